@@ -1,7 +1,7 @@
 """Single source for MANIFEST.json (bin/mkmanifest)."""
 
-HOOK_COMMITS = ["673019b", "625d9ba", "1d37b76", "2f6eef4"]
-FIX_COMMITS = ["12c9092", "3e9b6da", "a55c868", "5489af8", "dc51f1b", "72a27af", "81e61a6"]   # filled by bin/mkmanifest callers: /repo commits that add guarded hooks
+HOOK_COMMITS = ["673019b", "625d9ba", "1d37b76", "2f6eef4", "9ec354b"]
+FIX_COMMITS = ["12c9092", "3e9b6da", "a55c868", "5489af8", "06cfd24", "dc51f1b", "72a27af", "81e61a6"]   # filled by bin/mkmanifest callers: /repo commits that add guarded hooks
 
 NOTES = ("All checks: bin/check <id>. Exit 0 = held, 1 = VIOLATION line + replay file, 2 = tool error (never a verdict). "
          "Specs under spec/<family>/, harness under harness/ (path deps on /repo; rebuilt by every check). "
@@ -115,6 +115,10 @@ CHECKS["C14"] = dict(engine="tlc+vh", level="exploration", ref="4.6", technique=
 CHECKS["C30"] = dict(engine="tlc+vh", level="model_checking", ref="4.17", technique="TLA+ spec (RateLimit.tla) model-checked with TLC for every accepted configuration; histories replayed into the real RateLimiter on a virtual clock (hook H8); recorded verdicts validated by TLC (RateLimitTrace.tla: interval bound per tracking epoch, finiteness, no panic)",
                      text="Bound is a TLC invariant over all tick/request sequences of the bound; on recorded executions TLC evaluates the same interval bound on the REAL admissions (with the model's tracking epochs), checks that no call panicked and that rejections carry a retry-after.",
                      note="Trusted: hook H8 shadows Instant::now() in TokenBucket. Bounded: 2 clients, capacity 1..2, rate 0..4, burst 0..5, <= 60 operations, ms-granular times incl. idle periods of seconds.")
+
+CHECKS["C45"] = dict(engine="tlc+vh", level="model_checking", ref="4.17b", technique="TLA+ spec (Breaker.tla) model-checked with TLC over all interleavings of 3 senders; schedules replayed on a real ResilientSink + DeadLetterQueue with a gated inner sink and virtual clock (hook H2); recorded admissions, deliveries and DLQ lines validated by TLC (BreakerTrace.tla)",
+                     text="NoLoss / OpensExactly / OneProbe are TLC invariants of the design; on every replayed schedule TLC checks the breaker contract on the RECORDED admissions (opens after exactly the threshold, rejects until the timeout, one probe while half-open) and that every handed event is delivered or dead-lettered once as a readable entry naming sink and error.",
+                     note="Trusted: hook H2, the gate-based realisation of interleavings. Bounded: 3 senders, thresholds 1..3, timeouts 1..2 ticks, schedules of <= 14 steps.")
 
 NOT_APPLICABLE = {
     "C41": "parser totality over arbitrary strings: no state/transition system to specify; a TLA+ model would only enumerate token strings (fuzzing under another name)",
